@@ -369,14 +369,10 @@ Lemma parse_elems_arr f : forall l acc t r, parse_elems f l acc = Some (t, r) ->
 Proof.
   induction f as [|f IH]; intros l acc t r H; [discriminate|].
   cbn [parse_elems] in H.
-  destruct l as [|ch l']; [|].
-  - destruct (parse_value f []) as [[v r1]|]; [|discriminate].
-    destruct (skip_ws r1) as [|c2 r2]; [discriminate|].
-    destruct c2 as [[] [] [] [] [] [] [] []]; try discriminate; first [eapply IH; exact H | injection H as <- _; eauto].
-  - destruct ch as [[] [] [] [] [] [] [] []]; try discriminate;
-    (destruct (parse_value f _) as [[v r1]|]; [|discriminate];
-     destruct (skip_ws r1) as [|c2 r2]; [discriminate|];
-     destruct c2 as [[] [] [] [] [] [] [] []]; try discriminate; first [eapply IH; exact H | injection H as <- _; eauto]).
+  destruct (hd_is "]" l); [discriminate|]. destruct (hd_is "}" l); [discriminate|].
+  destruct (parse_value f l) as [[v r1]|]; [|discriminate].
+  destruct (hd_is "," (skip_ws r1)); [eapply IH; exact H|].
+  destruct (hd_is "]" (skip_ws r1)); [injection H as <- _; eauto | discriminate].
 Qed.
 
 Lemma parse_scalar_not_obj l m r : parse_scalar l <> Some (JObj m, r).
@@ -394,8 +390,7 @@ Proof.
   destruct (Ascii.eqb ch "[") eqn:E2.
   { intros H. exfalso.
     assert (Hx : exists x, JObj m = JArr x).
-    { destruct (skip_ws r0) as [|c2 r2]; [eapply parse_elems_arr; exact H|].
-      destruct c2 as [[] [] [] [] [] [] [] []]; try (eapply parse_elems_arr; exact H). discriminate H. }
+    { destruct (hd_is "]" (skip_ws r0)); [discriminate H | eapply parse_elems_arr; exact H]. }
     destruct Hx as [x Hx]. discriminate. }
   destruct (Ascii.eqb ch """") eqn:E3.
   { destruct (parse_str _ r0 []) as [[s r']|]; discriminate. }
